@@ -11,6 +11,7 @@ trap 'git -C /repo worktree remove --force "$d/pprof"; rm -rf "$d"' EXIT
 cd "$d/pprof"
 case "$what" in
   sed:*) IFS='@' read -r _ f expr <<< "${what/sed:/sed@}"; sed -i "$expr" "$f" && git diff --stat | tail -1; git diff --quiet && { echo "sed mutant changed nothing"; exit 2; } ;;
+  py:*) python3 "${what#py:}" || { echo "py mutant failed"; exit 2; }; git diff --stat | tail -1 ;;
   revert:*) git revert --no-commit "${what#revert:}" >/dev/null || { echo "revert failed"; exit 2; } ;;
   *) git apply "$what" || patch -p1 -s < "$what" || { echo "patch failed"; exit 2; } ;;
 esac
